@@ -315,7 +315,7 @@ func c04Run(t *testing.T, p c04Plan) (res vfResult) {
 		}
 		routers := map[string]*Router{"in-order": r1, "permuted": r2}
 		if p.Restart {
-			r3 := NewRouter(w.statePath("r1"))
+			r3 := vfNewRouter(w.statePath("r1"))
 			w.adopt(r3)
 			if err := r3.RestoreLastSavedState(); err != nil {
 				res.failf("restore-error", "restore failed: %v", err)
